@@ -17,7 +17,7 @@ SeqToSet(s) == { s[i] : i \in 1..Len(s) }
 TrNone == {}
 TrVerdicts == {"PASS", "FAIL", "TIMEOUT", "SILENCE", "BYPASS", "RAISE", "T", "F"}
 TrReasons == 1..5
-TrEnvs == {"bare", "lp", "lph"}
+TrEnvs == {"bare", "lp", "lph", "lpo"}
 TrJunk == {"junk"}
 NoDev == {}
 DevLegacy == {"legacySlowValidator"}
